@@ -12,23 +12,23 @@ def repo_commits(prefix):
 CHECKS = {
     "C01": ("exploration",
             "property-based testing (proptest): generated dictionaries x options x sentences judged by a validity predicate over every token accessor",
-            "Held on every generated (dictionary, options, sentence) triple: ~80k tokenizations per quick run over matrix/raw/dual connectors, user lexicons, id mappings, astral/U+0000/U+FFFF characters. A for-all-inputs claim can only be explored, not proved, with this technique.",
+            "Held on every generated (dictionary, options, sentence) triple: ~280k tokenizations per quick run (22k generated dictionaries x options x sentences, incl. 200-character and 20,000-character sentences) over matrix/raw/dual connectors, user lexicons, id mappings, astral/U+0000/U+FFFF characters. A for-all-inputs claim can only be explored, not proved, with this technique.",
             "Trusts the harness's independent reference (char classes, dictionary rows by word index). Domain excludes: categories without unk.def entries and range lines covering U+0000 (open known findings), costs overflowing i32. Termination by watchdog.",
             "5/C01"),
     "C02": ("exploration",
             "property-based testing (proptest) with a reference-model oracle: independent Viterbi recurrence over the dumped candidate nodes and over a reference lattice",
-            "Held on ~115k generated (dictionary, options, sentence) triples per quick run: every lattice node's prefix minimum, the EOS minimum (incl. the connection to id 0), each token's running total_cost and the reported path's total equal an independent recomputation; 5% of cases have the EOS connection deciding the winner, 10% have ties.",
+            "Held on ~330k generated (dictionary, options, sentence) triples per quick run (generated dictionaries incl. id mappings, plus the repository's own resource dictionary): every lattice node's prefix minimum, the EOS minimum (incl. the connection to id 0), each token's running total_cost and the reported path's total equal an independent recomputation; 5% of cases have the EOS connection deciding the winner, 10% have ties; the reference Viterbi is itself cross-checked by brute-force enumeration of all segmentations on ~220k short sentences per run.",
             "Costs come from the harness's reference dictionary and connectors (naive sums). Optimality is judged over the implementation's own candidate nodes read through the lattice-dump hook; candidate correctness is C03. i32 overflow regime not explored.",
             "5/C02"),
     "C03": ("exploration",
             "property-based testing (proptest) with a reference-model oracle: the literal candidate rule re-implemented naively, compared as multisets per position through the lattice dump",
-            "Held on ~115k generated cases per quick run with every sub-rule (invoke suppression, grouping, bound edge run-1 in {max,max+1}, length prefixes, duplicate-run skip, single-char fallback, multi-category chaining, multiple unk entries) occurring in >5% of cases.",
+            "Held on ~330k generated cases per quick run (generated dictionaries and the repository's resource dictionary) with every sub-rule (invoke suppression, grouping, bound edge run-1 in {max,max+1} incl. MeCab's default max=24, length prefixes, duplicate-run skip, single-char fallback, multi-category chaining, multiple unk entries) occurring in >5% of cases.",
             "Reference char classes follow 'last covering range line wins, DEFAULT otherwise'. Excluded by construction: range lines covering U+0000 (astral characters take U+0000's class: open known finding), categories without unk entries. ignore_space only in the C12-precondition domain.",
             "5/C03"),
     "C04": ("exploration",
             "stateful property-based testing (proptest): generated operation histories interpreted against the model 'tokens == tokens of a fresh worker'; multi-threaded stress with generated per-thread histories; compile-time Send+Sync probe",
-            "Held on ~8k sequential histories (1-30 operations incl. shorter-after-longer, empty, repeated tokenize, counter updates) and ~1.9k concurrent runs (4 and 16 workers over one shared tokenizer) per quick run; ~138k tokenizations compared exactly with fresh-worker results.",
-            "The harness does not own the thread schedule (no synchronisation primitives exist in the code to model): the concurrency clause is a stress test plus a type-level check, and a race behind unsafe code would be found only probabilistically.",
+            "Held on ~8k sequential histories (1-30 operations incl. shorter-after-longer, empty, repeated tokenize, counter updates) and ~1.9k concurrent runs (4 and 16 workers over one shared tokenizer, each history repeated 12 times) per quick run; ~1M tokenizations compared exactly with fresh-worker results; the concurrent runs are repeated under ThreadSanitizer (no data race on any explored schedule).",
+            "The harness does not own the thread schedule (no synchronisation primitives exist in the code to model): the concurrency clause is a stress test plus a type-level check plus a ThreadSanitizer pass; a logic race through atomics is found only probabilistically.",
             "5/C04"),
     "C05": ("exploration",
             "property-based testing (proptest): byte-level round trip + differential testing of D against read(write(D)) under generated operation sequences; image exchange between the portable and the AVX2 build",
@@ -37,77 +37,77 @@ CHECKS = {
             "5/C05"),
     "C06": ("exploration",
             "metamorphic property-based testing (proptest): mapped vs unmapped dictionary under generated permutations and operation orders; negative generation of malformed mappings",
-            "Held on 3k generated (dictionary, permutation pair(s), step order) cases and 4k malformed mappings per quick run: tokens equal modulo pi, cost'(pi_R r, pi_L l) == cost(r,l) for all pairs incl. id 0, for matrix/raw/dual, user lexicon before/after mapping, two mappings, write/read in between.",
+            "Held on 8k generated (dictionary, permutation pair(s), step order) cases and 10k malformed mappings per quick run: tokens equal modulo pi, cost'(pi_R r, pi_L l) == cost(r,l) for all pairs incl. id 0, for matrix/raw/dual, user lexicon before/after mapping, two mappings, write/read in between.",
             "Orientation of mapping lists as in the map tool. Ties tolerated only when the reference lattice proves several optimal paths.",
             "5/C06"),
     "C08": ("exploration",
             "differential and stateful property-based testing (proptest): user lexicon vs extended system lexicon through the lattice dump; load/replace/clear histories against a last-writer-wins model; negative generation of invalid user CSVs",
-            "Held on 4k (dictionary, user rows) cases x sentences x options for candidate/optimum equivalence, 1.5k load/replace/clear histories (identical observations and images), 3k invalid user CSVs (Err, no panic) per quick run, on unmapped and mapped dictionaries.",
+            "Held on 10k (dictionary, user rows) cases x sentences x options for candidate/optimum equivalence, 3k load/replace/clear histories (identical observations and images), 8k invalid user CSVs (Err, no panic) per quick run, on unmapped and mapped dictionaries.",
             "Candidate order differs between the two lexicon layouts, so token sequences are compared only under a unique optimum.",
             "5/C08"),
     "C07": ("exploration",
             "property-based testing (proptest) with a reference-model oracle (naive feature-pair sums), bounded-exhaustive scorer lookups per generated key set, differential tokenization raw/dual/materialised matrix, and a portable<->AVX2 exchange of generated models",
-            "Held on 4k generated bigram models per quick run (K in 1..20 incl. <8, 8, 9-16, >16; ragged rows, shared strings, BOS/EOS lines, clamp regime) for EVERY id pair, 3k scorer key sets with every key of the universe looked up (3.7M lookups), and 2x300 models whose costs were recomputed in the other build.",
-            "Excluded and named: the ''/'' line (cost(0,0) over padded lanes; accessor-only finding), a feature literally named '*' in bigram.cost, duplicate cost lines. Dual is compared only where the reference proves nothing can have been clamped.",
+            "Held on 10k generated bigram models per quick run (K in 1..20 incl. <8, 8, 9-16, >16; ragged rows, shared strings, BOS/EOS lines, clamp regime) for EVERY id pair, 6k scorer key sets with every key of the universe looked up (7.5M lookups), 2x300 models whose costs were recomputed in the other build, and libFuzzer campaigns on the bigram builder in the portable and the AVX2 (unsafe gather code under ASan) build.",
+            "Excluded and named: a feature literally named '*' in bigram.cost, duplicate cost lines. Dual is compared only where the reference proves nothing can have been clamped.",
             "5/C07"),
     "C09": ("fault_enumeration",
             "fault enumeration: every strict prefix of generated dictionary images and every single-byte substitution of the magic, plus property-based generation (proptest) of cuts, near-miss headers and random streams",
-            "Per quick run: 2 generated images with EVERY strict prefix read (exhaustive for those images), 6 more images with boundary-focused prefixes, all 21x255 magic substitutions for each of the 8 images, 1.5k generated faults; ~0.9M reads, all rejected with Err.",
+            "Per quick run: 2 generated images with EVERY strict prefix read (exhaustive for those images), 6 more images with boundary-focused prefixes, all 21x255 magic substitutions for each of the 8 images, 1.5k generated faults, a libFuzzer campaign; ~0.95M reads, all rejected with Err.",
             "Covers truncation and foreign/near-miss magic only, as the property states; corruption of image bodies is not asserted (crawdad's deserializer panics on some corrupted bodies).",
             "5/C09"),
     "C10": ("exploration",
             "property-based testing (proptest) with structured mutation: format-aware edits of valid generated file sets; oracles: totality (no panic), acceptance => safe tokenization, and a strict reference char.def parser for silent mis-assignment",
-            "Held on 20k mutated file sets per quick run (24% accepted, 76% rejected with an error value) and 4k arbitrary mapping sequences; ~300k tokenizations of accepted dictionaries; char.def interpretation compared with the reference on 4.6k accepted dictionaries.",
+            "Held on 60k mutated file sets per quick run (24% accepted, 76% rejected with an error value), 10k sequences of 1-3 mappings with a user lexicon before/after, and three libFuzzer campaigns (matrix builder, bigram builders, char.def against the strict reference parser; 216k executions); ~0.9M tokenizations of accepted dictionaries; char.def interpretation compared with the reference on ~14k accepted dictionaries.",
             "Open known finding excluded by construction and counted: accepted category without unk.def entries. Clause (3) is conditional on the reference parser being able to read the mutated file.",
             "5/C10"),
     "C11": ("exploration",
             "property-based testing (proptest), round trip by construction: logical rows -> rendered CSV -> dictionary -> word_feature / lattice candidates",
-            "Held on 6k generated CSVs per quick run (quoted surfaces, verbatim quoted feature cells, homographs, nested prefixes, empty surfaces, ids up to 65534, i16 extremes, blank lines incl. trailing, missing final newline; system and user lexicon).",
+            "Held on 30k generated CSVs per quick run (quoted surfaces, verbatim quoted feature cells, homographs, nested prefixes, empty surfaces, ids up to 65534, i16 extremes, blank lines incl. trailing, missing final newline; system and user lexicon).",
             "LF only; no line breaks inside quoted fields; no U+0000 in surfaces.",
             "5/C11"),
     "C12": ("exploration",
             "metamorphic property-based testing (proptest): re-spaced variants of one sentence, cross-checked against the reference Viterbi with gap skipping",
-            "Held on 6k generated (dictionary, chunk list, 4 re-spacings) cases per quick run; 40% have an unknown token next to a gap, 30% a non-zero connection cost across a gap; spaces-only sentences and missing SPACE also checked.",
+            "Held on 20k generated (dictionary, chunk list, 4 re-spacings) cases per quick run; 40% have an unknown token next to a gap, 30% a non-zero connection cost across a gap; spaces-only sentences and missing SPACE also checked.",
             "Precondition built into the generator (SPACE exclusive to the space characters, no surface contains a space).",
             "5/C12"),
     "C13": ("exploration",
             "stateful property-based testing (proptest): the reorder tool's loop over generated line histories against an independent recount in the reference lattice, then reorder->map->tokenize",
-            "Held on 5k generated histories of 0-12 lines per quick run with the id lists verified after every prefix (35k verifications), incl. empty first/inner lines, repeated lines, no lines; the final lists were always accepted by map and preserved tokenization.",
+            "Held on 10k generated histories of 0-12 lines per quick run (connectors with up to 48 ids per side) with the id lists verified after every prefix (70k verifications), plus 40 pipelines through the real compile/reorder/map/tokenize binaries, incl. empty first/inner lines, repeated lines, no lines; the final lists were always accepted by map and preserved tokenization.",
             "Default tokenizer options as in the tool. Probabilities to 1e-12 relative.",
             "5/C13"),
     "C14": ("exploration",
             "property-based testing (proptest) with a reference-model oracle: generated training configurations are trained, and the emitted files are compared field by field with an independent merge of the raw model read through a hook",
-            "Held on 1.5k generated training configurations per quick run (each incl. a CRF training run): row order, surfaces (incl. commas/quotes), verbatim features, class ids, every cost == trunc(-w*32767/max|w|), every matrix cell and the header, user rows (0,0,0 vs explicit), compilation of the emitted files; 78% of cases have virtual edges, 48% user rows given as 0,0,0.",
+            "Held on 4k generated training configurations per quick run (each incl. a CRF training run): row order, surfaces (incl. commas/quotes), verbatim features, class ids, every cost == trunc(-w*32767/max|w|), every matrix cell and the header, user rows (0,0,0 vs explicit), compilation of the emitted files; 78% of cases have virtual edges, 48% user rows given as 0,0,0.",
             "Small models only. Trusts the hook's plain-data view of the raw model (weights, index tables, feature-id lists). Open known finding excluded by construction and counted: empty bigram weight table + user lexicon (panic inside rucrf).",
             "5/C14"),
     "C15": ("exploration",
             "stateful property-based testing (proptest): differential testing of the in-memory model against read_model(write_model(M)) under generated operation histories",
-            "Held on 1.2k generated (model, history) cases per quick run: after every generation all seven output files agree (bigram.cost as a multiset), generating twice agrees, write_model reports its length; 36% add a user lexicon after the round trip.",
+            "Held on 3k generated (model, history) cases per quick run: after every generation all seven output files agree (bigram.cost as a multiset), generating twice agrees, write_model reports its length; 36% add a user lexicon after the round trip.",
             "User entries are not part of the model file, so they are added after the round trip on both sides (as dictgen does).",
             "5/C15"),
     "C16": ("exploration",
             "differential property-based testing (proptest) with a derived tolerance: dictionaries compiled from matrix.def and from bigram.left/right/cost (raw and dual) compared on every id pair",
-            "Held on 1.2k trained models per quick run (K = 1-10 templates: <8, 8, >8), ~158k id pairs incl. BOS/EOS rows and columns: |bigram - matrix| <= K+1 and identical id counts for raw and dual connectors.",
+            "Held on 3k trained models per quick run (K = 1-10 templates: <8, 8, >8), ~370k id pairs incl. BOS/EOS rows and columns: |bigram - matrix| <= K+1 and identical id counts for raw and dual connectors.",
             "Tolerance derived (one truncation per template plus one for the matrix cell). Small models only.",
             "5/C16"),
     "C17": ("exploration",
             "property-based testing (proptest) with a reference-model oracle (first matching rule in file order) plus bounded-exhaustive enumeration of a small rule/feature space",
-            "Held on 20k generated rule lists x 4 feature lists per quick run (prefix sharing forced, wildcard/literal/alternative interleaving, absent $n) and on ALL 8,420 rule lists of <=3 rules x <=2 positions over {*,a,b,(a|b)} against ALL 13 feature lists over {a,b,c} (exhaustive for that sub-space).",
+            "Held on 40k generated rule lists x 4 feature lists per quick run (prefix sharing forced, wildcard/literal/alternative interleaving incl. partially overlapping groups, absent $n) and on ALL 27,930 rule lists of <=3 rules x <=2 positions over {*,a,b,(a|b),(a|c)} against ALL 13 feature lists over {a,b,c} (exhaustive for that sub-space).",
             "Goes through the rewrite.def parser (section headers, decoy rules in the other sections) via a hook. '$0' and non-numeric references are outside the documented grammar.",
             "5/C17"),
     "C18": ("exploration",
             "property-based testing (proptest) with a reference-model oracle: MeCab template expansion at function level (id bijection over call histories) and at dictionary level (context tuples vs connection ids and bigram.left/right lines after training)",
-            "Held on 8k generated template sets x histories of 1-40 extraction calls and 1.2k trained models per quick run: ids None exactly where the reference yields no feature, equal strings <=> equal ids, listed tuples equal expansions except '*' for dropped features, equal tuples share ids.",
+            "Held on 8k generated template sets x histories of 1-40 extraction calls and 3k trained models (incl. a model reload before the user lexicon) per quick run: ids None exactly where the reference yields no feature, equal strings <=> equal ids, listed tuples equal expansions except '*' for dropped features, equal tuples share ids.",
             "Sharing is checked among training-time rows and among user rows separately (zero-weight features are dropped from training-time rows only).",
             "5/C18"),
     "C19": ("exploration",
             "property-based testing (proptest): round trip render -> parse -> write -> parse over generated corpora with negative cases, and closure of the parser under the tokenizer's MeCab-style output",
-            "Held on 20k generated corpora (incl. surface 'EOS', empty features, dropped empty sentences, missing final newline, 5k malformed variants rejected) and 4k dictionaries x options whose tokenizer output (incl. tokens with surface 'EOS') parsed back to exactly the tokens, per quick run.",
-            "Inputs exclude tab and every Unicode line-break character (conservative reading). The CLI binaries themselves are exercised only in the thorough tier.",
+            "Held on 40k generated corpora (incl. surface 'EOS', empty features, dropped empty sentences, missing final newline, 10k malformed variants incl. invalid UTF-8 rejected), 8k dictionaries x options whose tokenizer output (incl. tokens with surface 'EOS') parsed back to exactly the tokens, 40 pipelines through the real compile/tokenize/split binaries and an 80k-execution libFuzzer campaign, per quick run.",
+            "Inputs exclude tab and every Unicode line-break character (conservative reading). The CLI binaries are exercised on 40 (quick) / 600 (thorough) generated pipelines.",
             "5/C19"),
     "C20": ("exploration",
             "property-based testing (proptest) with a reference-model oracle: generated MeCab model descriptions converted, compiled with the raw connector and compared on every pair of non-zero ids (accessor and two-token probe sentences)",
-            "Held on 6k generated model descriptions per quick run (1-8 templates with optional references, 1-8 ids per side, 4 cost factors, unrealisable/zero/truncating weights, BOS/EOS lines), ~110k id pairs, 25k black-box probes; 580 error variants rejected.",
+            "Held on 20k generated model descriptions per quick run (1-8 templates with optional references, 1-8 ids per side, 4 cost factors, unrealisable (one- and two-sided)/zero/truncating weights, BOS/EOS lines), ~370k id pairs, 80k black-box probes; ~2k error variants rejected.",
             "Reference expansion written from the property statement (not from the code's crossed file naming), so a single left/right swap changes costs and is detected.",
             "5/C20"),
 }
@@ -149,7 +149,10 @@ def main():
         "engines": [
             {"name": "vverif", "path": "/verif/harness",
              "serves_properties": sorted(CHECKS.keys()),
-             "kind_free_text": "Rust crate: proptest 1.11 TestRunner driven from the binary `vcheck` (16 shards, fixed seeds from VERIF_SEED), independent reference model, JSON replay files, evidence writer"},
+             "kind_free_text": "Rust crate: proptest 1.11 TestRunner driven from the binary `vcheck` (16 shards, fixed seeds from VERIF_SEED), independent reference model, JSON replay files, evidence writer; built portable, with AVX2 and with ThreadSanitizer"},
+            {"name": "fuzz", "path": "/verif/fuzz",
+             "serves_properties": ["C07", "C09", "C10", "C19"],
+             "kind_free_text": "cargo-fuzz project (libFuzzer, ASan): build_matrix_dict, build_bigram_dict (also built with AVX2), chardef_reference, corpus_roundtrip, dict_read; oracles inside the targets; campaigns with fixed -runs on fresh corpora seeded from fuzz/seeds, driven by ./check"},
         ],
         "checks": checks,
         "not_applicable": na,
